@@ -34,7 +34,8 @@ def reader_config(cfg: dict, via_json: bool):
   import ttconv.style_properties as styles
   if cfg.get("noconfig"):
     return None
-  tc = "%02d:%02d:%02d:%02d" % tuple(cfg["start_tc"])
+  # (start_sep: the separator before the frames; at 24000/1001 there is no drop-frame counting, so ';' '.' ',' cannot matter)
+  tc = ("%02d:%02d:%02d" + cfg.get("start_sep", ":") + "%02d") % tuple(cfg["start_tc"])
   start = None if cfg["start"] == "none" else "TCP" if cfg["start"] == "tcp" else tc
   rows = None if cfg["rows"] == "none" else "MNR" if cfg["rows"] == "mnr" else cfg["rows_n"]
   if via_json:
@@ -270,6 +271,8 @@ def random_case(rng, cid, repeat_sn=False):
          "nofill": rng.randint(0, 1), "nopad": rng.randint(0, 1), "font": rng.randint(0, 1)}
   if start == "none" and rows == "none" and not (cfg["nofill"] or cfg["nopad"] or cfg["font"]) and rng.random() < 0.5:
     cfg["noconfig"] = 1
+  if dfc == "STL23.01" and start == "tc" and rng.random() < 0.5:
+    cfg["start_sep"] = rng.choice([";", ".", ","])
   base = 0 if start == "none" else tcp_n if start == "tcp" else tc_n
   nrows = 23 if tt else (23 if rows == "none" else mnr if rows == "mnr" else cfg["rows_n"])
 
